@@ -92,9 +92,10 @@ def in_memory_bodies_are_tagged(ctx):
                        '?' not in vals and '<unknown>' not in vals, 'tag decision could not be evaluated', trivial=True)
     t = ctx.func('upload.UploadSubmissionTask._get_upload_task_tag')
     rets = [n for n in own_nodes(t.node) if isinstance(n, ast.Return)]
-    tags = [(st, v) for st, v in q.local_defs(t, 'tag') if isinstance(v, ast.AST)]
+    tagn = (q.returned_names(t) or ['tag'])[0]
+    tags = [(st, v) for st, v in q.local_defs(t, tagn) if isinstance(v, ast.AST)]
     ok = any(norm(v) == 'IN_MEMORY_UPLOAD_TAG' and q.guards_imply(q.guards(st), f'{t.params[1]}.stores_body_in_memory({t.params[2]})') and len(q.guards(st)) == 1 for st, v in tags) \
-        and any(norm(v) == 'None' and not q.guards(st) for st, v in tags) and all(norm(r.value) == 'tag' for r in rets)
+        and any(norm(v) == 'None' and not q.guards(st) for st, v in tags) and all(norm(r.value) == tagn for r in rets)
     ctx.ob(t, 'tag = IN_MEMORY_UPLOAD_TAG iff stores_body_in_memory(operation_name)', ok, f'tag selection not recognised: {[(norm(v), q.guard_texts(st)) for st, v in tags]}')
     for fname, op, fac in (('_submit_upload_request', 'put_object', 'get_put_object_body'), ('_submit_multipart_request', 'upload_part', 'yield_upload_part_bodies')):
         f = ctx.func(f'upload.UploadSubmissionTask.{fname}')
